@@ -18,7 +18,7 @@ def _drive_and_validate(work, fam, P, tier, seed, binary, sub, replay_file=None,
     meta = run_vdrive(binary, fam["vdrive"], out, tier, seed, args=args, replay=replay_file,
                       chunk=fam.get("chunk"), timeout=fam.get("drive_timeout", 3000), env_extra=fam.get("drive_env"))
     val = validate(work, fam["trace_module"], fam["trace_cfg"], out, heap=fam.get("heap", "3g"),
-                   timeout=fam.get("validate_timeout", 1500), env_extra=fam.get("tlc_env"), linear=fam.get("linear", True))
+                   timeout=fam.get("validate_timeout", 1500), env_extra=fam.get("tlc_env"), linear=fam.get("linear", True), renames=fam.get("renames"))
     return out, meta, val
 
 
@@ -156,7 +156,7 @@ def selftest(work, fam, P, pid, out):
     with open(os.path.join(d, "chunk_0000.ndjson"), "w") as f:
         for e in lines:
             f.write(json.dumps(e) + "\n")
-    val = validate(work, fam["trace_module"], fam["trace_cfg"], d, heap=fam.get("heap", "3g"), env_extra=fam.get("tlc_env"), linear=False)
+    val = validate(work, fam["trace_module"], fam["trace_cfg"], d, heap=fam.get("heap", "3g"), env_extra=fam.get("tlc_env"), linear=False, renames=fam.get("renames"))
     hit = [v for v in val["viols"] if v["prop"] == pid]
     if not hit:
         raise Machinery("self-test: corrupted trace (%s) was accepted by %s - the check is vacuous" % (desc, fam["trace_module"]))
